@@ -94,9 +94,11 @@ CLAIMS = {
         text='Static, table level. Decided clauses: for each kind and language the printed shape (format strings, word tables, symbols) is inside the reader\'s tables: duration words, date shapes and month names, time+zone shape and the rule that consumes it, percent, money symbol class/placement/resolution, unit words, based integers. '
              'Not decided: equality of the re-read value.'),
     'C16': dict(
-        technique='origin-scoped comparison rule (case normalisation), argument wiring, stage-order rule',
+        technique='origin-scoped comparison rule (case normalisation of both operands), table-case data rules, argument wiring of the noise parsers, per-stage producer-order rule over the parser registries, finite enumeration of interval orderings for the claim predicate',
         ref='DESIGN.md section 5 C16',
-        text='Static. Decided clauses: every comparison whose operand is a Text/Symbol/Group payload lower-cases both sides; currency/month/zone lookups normalise case and their tables are stored normalised; comment and whitespace parsers pass no token type; the comment parser claims spans before any other token producer. Not decided: invariance under extra blanks over all lines.'),
+        text='Static. Decided clauses: W1 every comparison whose operand is a Text/Symbol/Group payload lower-cases both sides; currency, month, zone, alias-word and variable-name lookups normalise the user\'s text and their tables are stored (or configured) in the normalised case; '
+             'W2 comment and whitespace parsers claim exactly group 0 of their match with no token type, cleanup keeps typed tokens only, the parser input is built from typed tokens; W3 the comment parser is the first token producer of every stage (type-less claims are forgotten between stages); '
+             'W4 add_token_location rejects every interval ordering in which an end point of a later span lies in a claimed one; W5 the whitespace regex is one-or-more blanks. Not decided: invariance under extra blanks over all lines; duration-unit words and day keywords are matched case-sensitively (not among the classes the statement lists; NOTE).'),
     'C17': dict(
         technique='unit/offset-domain dataflow (bytes vs chars as an interprocedural fixpoint over fields, parameters and results), string-identity (haystack provenance) analysis, finite enumeration of interval orderings for the collision predicate, dominance rules',
         ref='DESIGN.md section 5 C17',
